@@ -76,6 +76,27 @@ theorem c14_concat_ambiguous_same_dir (H : S → S) : tempDir H idA = tempDir H 
   have h2 : pathPrefix idA = pathPrefix idB := by decide
   simp [tempDir, h1, h2]
 
+/-! ### `splitAllPaths` returns every segment (F22, fixed)
+
+The loop of `splitAllPaths` walks from the deepest segment upwards. With the current stop condition it
+returns all segments of every path; with the former one (`dir == file`) it stopped at a directory named
+like its parent, so `d/d/f` and `e/e/f` both contributed only `f` to the hash. -/
+
+theorem splitWalk_all (abs : Bool) (up parts : List S) :
+    Str.splitWalk false abs up parts = up.reverse ++ parts := by
+  induction up generalizing parts with
+  | nil => simp [Str.splitWalk]
+  | cons f up ih => simp [Str.splitWalk, ih]
+
+theorem c14_split_returns_all_segments (abs : Bool) (segs : List S) :
+    Str.splitWalk false abs segs.reverse [] = segs := by
+  simp [splitWalk_all]
+
+theorem c14_split_old_drops_segments :
+    Str.splitWalk true false ["f".toList, "d".toList, "d".toList] [] = ["f".toList] ∧
+    Str.splitWalk true false ["f".toList, "e".toList, "e".toList] [] = ["f".toList] ∧
+    Str.splitWalk true false ["d".toList, "d".toList] [] = [] := by decide
+
 -- non-vacuity: an identity beyond the fold still yields a short name
 set_option maxRecDepth 8000 in
 example : (pathPrefix { name := List.replicate 220 'x', ins := [], subs := [], params := [], tags := [] }).length = 12 := by decide
@@ -88,3 +109,6 @@ end SciVerif.Fmt
 #print axioms SciVerif.Fmt.c14_collision_is_explicit
 #print axioms SciVerif.Fmt.c14_concat_ambiguous
 #print axioms SciVerif.Fmt.c14_concat_ambiguous_same_dir
+#print axioms SciVerif.Fmt.splitWalk_all
+#print axioms SciVerif.Fmt.c14_split_returns_all_segments
+#print axioms SciVerif.Fmt.c14_split_old_drops_segments
